@@ -93,6 +93,26 @@ def canonical_well_formed(text, total, delimiter):
     return canonical_accepts(state)
 
 
+def well_formed(text, total, delimiter):
+    """Must the input be accepted?  With one fixed delimiter (or none) records of `total` characters and delimiters alternate
+    without any choice, whatever characters the records hold, so the decomposition is unique: it exists or it does not.  Only
+    under 'any' can CR LF be read in two ways; there the canonical form (no CR / LF inside records) is required."""
+    if delimiter == "any":
+        return canonical_well_formed(text, total, delimiter)
+    position = 0
+    while position < len(text):
+        if len(text) - position < total:
+            return False
+        position += total
+        if position == len(text):
+            return True  # the final delimiter is optional
+        if delimiter is not None:
+            if not text.startswith(delimiter, position):
+                return False
+            position += len(delimiter)
+    return True
+
+
 # greedy transducer: like the canonical automaton but records may contain anything; keeps the partial record text
 def greedy_start():
     return ("rec", "")
